@@ -329,6 +329,82 @@ theorem step_inv {S init s s'} (wf : WF S) (inv : Inv S init s) (st : Step S s s
       · subst e; simp [upd, isFull] at hj
       · simp [upd, e] at hj; exact inv.full j fj hj
   | conflict i fd cur h hc => exact publish_inv wf inv i fd cur _ (wf.cname_ns _ _ (wf.dst_ns i)) h
+  | dLock i h hl =>
+    refine ⟨inv.inj, inv.fresh, ?_, ?_, ?_, inv.pub⟩
+    · intro j fj hj
+      by_cases e : j = i
+      · subst e; simp [upd, fdOf] at hj
+      · simp [upd, e] at hj; exact inv.own j fj hj
+    · intro j fj kj hj
+      by_cases e : j = i
+      · subst e; simp [upd] at hj
+      · simp [upd, e] at hj; exact inv.prog j fj kj hj
+    · intro j fj hj
+      by_cases e : j = i
+      · subst e; simp [upd, isFull] at hj
+      · simp [upd, e] at hj; exact inv.full j fj hj
+  | dRead i h =>
+    refine ⟨inv.inj, inv.fresh, ?_, ?_, ?_, inv.pub⟩
+    · intro j fj hj
+      by_cases e : j = i
+      · subst e; simp [upd, fdOf] at hj
+      · simp [upd, e] at hj; exact inv.own j fj hj
+    · intro j fj kj hj
+      by_cases e : j = i
+      · subst e; simp [upd] at hj
+      · simp [upd, e] at hj; exact inv.prog j fj kj hj
+    · intro j fj hj
+      by_cases e : j = i
+      · subst e; simp [upd, isFull] at hj
+      · simp [upd, e] at hj; exact inv.full j fj hj
+  | dKeep i cur h hc =>
+    refine ⟨inv.inj, inv.fresh, ?_, ?_, ?_, inv.pub⟩
+    · intro j fj hj
+      by_cases e : j = i
+      · subst e; simp [upd, fdOf] at hj
+      · simp [upd, e] at hj; exact inv.own j fj hj
+    · intro j fj kj hj
+      by_cases e : j = i
+      · subst e; simp [upd] at hj
+      · simp [upd, e] at hj; exact inv.prog j fj kj hj
+    · intro j fj hj
+      by_cases e : j = i
+      · subst e; simp [upd, isFull] at hj
+      · simp [upd, e] at hj; exact inv.full j fj hj
+  | dUnlink i cur h hc =>
+    refine ⟨?_, ?_, ?_, ?_, ?_, ?_⟩
+    · intro p q n hp hq
+      simp only [upd] at hp hq
+      split at hp
+      · cases hp
+      · split at hq
+        · cases hq
+        · exact inv.inj _ _ _ hp hq
+    · intro p n hp
+      simp only [upd] at hp
+      split at hp
+      · cases hp
+      · exact inv.fresh _ _ hp
+    · intro j fj hj
+      by_cases e : j = i
+      · subst e; simp [upd, fdOf] at hj
+      · simp [upd, e] at hj
+        have h1 : S.tmpOf j (S.req j).dst ≠ (S.req i).dst := by
+          intro x; have := wf.tmp_staging j (S.req j).dst; rw [x, wf.dst_ns i] at this; cases this
+        simp [upd, h1]; exact inv.own j fj hj
+    · intro j fj kj hj
+      by_cases e : j = i
+      · subst e; simp [upd] at hj
+      · simp [upd, e] at hj; exact inv.prog j fj kj hj
+    · intro j fj hj
+      by_cases e : j = i
+      · subst e; simp [upd, isFull] at hj
+      · simp [upd, e] at hj; exact inv.full j fj hj
+    · intro p n hp hn
+      simp only [upd] at hn
+      split at hn
+      · cases hn
+      · exact inv.pub p n hp hn
 
 #print axioms step_inv
 end Copia.HubConc
